@@ -153,7 +153,11 @@ def add (h : Plus) (x : Nat) : Plus :=
     let h := { h with tmpSet := insertSorted (encodeHash h.p x) h.tmpSet }
     let h := if h.tmpSet.length * 100 > h.m then mergeSparse h else h
     if h.sparseBytes > h.m then toNormal (mergeSparse h) else h
-  else { h with dense := regMax h.dense (denseIdxRho h.p x) }
+  else
+    -- (the register array is taken out of the record first so that the update is in place)
+    let d := h.dense
+    let h := { h with dense := #[] }
+    { h with dense := regMax d (denseIdxRho h.p x) }
 
 inductive MErr where
   | precision      -- "precisions must be equal" (the receiver is unchanged)
